@@ -635,10 +635,11 @@ func newScenario(c *kit.Check, idx int) *scenario {
 	if r.Intn(4) == 0 {
 		sc.opts = &dirs.SnapDirOptions{HiddenSnapDataDir: true}
 	}
-	// the number of per-user archives cycles with the scenario index so that
-	// every run meets multi-archive snapshots (three users only in the thorough
-	// tier: every archive member costs a tar+gzip process pair per restore)
-	sc.users = [][]string{{"alice", "bob"}, {"alice"}, {"alice", "bob", "carol"}, {"alice", "bob"}}[idx%4]
+	// the number of per-user archives cycles with the shard index (quick: two
+	// users = three archive members; every member costs a tar+gzip process
+	// pair per restore)
+	shard, _ := kit.Shard()
+	sc.users = [][]string{{"alice", "bob"}, {"alice", "bob", "carol"}, {"alice"}}[(idx+shard)%3]
 	homes := map[string]string{}
 	for _, u := range sc.users {
 		homes[u] = filepath.Join(sc.root, "home", u)
@@ -758,9 +759,12 @@ func TestVerifC32(t *testing.T) {
 		}
 	}
 
-	nScen := kit.Scale(1, 3)
-	nImport := kit.Scale(102, 170) // per scenario (34 stream classes, round-robin)
+	nScen := 1                     // per shard; the thorough tier multiplies scenarios by shards
+	nImport := kit.Scale(102, 136) // per scenario (34 stream classes, round-robin)
 	only := kit.OnlyCase()
+	if os.Getenv("VERIF_C32_ONLY_STRACE") != "" {
+		nScen = 0 // debugging aid: only the syscall monitor
+	}
 	for s := 0; s < nScen; s++ {
 		if only >= 0 && only/caseStride != s {
 			continue
@@ -780,7 +784,7 @@ func TestVerifC32(t *testing.T) {
 			break
 		}
 	}
-	if !kit.Quick() && only < 0 {
+	if (!kit.Quick() || os.Getenv("VERIF_C32_ONLY_STRACE") != "") && only < 0 {
 		if i, _ := kit.Shard(); i == 0 {
 			runStraceMonitor(c)
 		}
